@@ -239,6 +239,5 @@ func splitKV(s string) [][2]string {
 	return out
 }
 
-func cmdCheck(args []string) int   { fmt.Println("check: not implemented yet"); return 2 }
 func cmdReplay(args []string) int  { fmt.Println("replay: not implemented yet"); return 2 }
 func cmdSelftest(args []string) int { fmt.Println("selftest: not implemented yet"); return 2 }
